@@ -41,6 +41,11 @@ typedef struct {
 	uint32_t nsizes;
 	bool overflow;          // more than C09_MAXREC requests
 	bool bad_free;          // free of a pointer that is not ours
+	// optional slow allocator: the first `delay_count` requests of exactly `delay_size` bytes sleep `delay_ms` first
+	// (an application's allocator may take any time; used to reproduce schedule-dependent behaviour reliably)
+	uint64_t delay_size;
+	uint32_t delay_ms;
+	uint32_t delay_count;
 } c09_counter;
 
 static int c09_new_memfd(void)
@@ -97,7 +102,14 @@ static void *c09_alloc(void *opaque, size_t nmemb, size_t size)
 		pthread_mutex_unlock(&c->mu);
 		return NULL;
 	}
+	uint32_t delay = 0;
+	if (c->delay_count > 0 && size == c->delay_size) {
+		--c->delay_count;
+		delay = c->delay_ms;
+	}
 	pthread_mutex_unlock(&c->mu);
+	if (delay > 0)
+		usleep((useconds_t)delay * 1000);
 
 	void *ret;
 	if (size >= C09_BIG) {
